@@ -335,7 +335,7 @@ package codegen
 //
 //@ func (*Backend).collectGlobalVarsFromStatements
 //@   mode bv
-//@   tags C02 C17
+//@   tags C02 C17 C15
 //@   ghostcall collectGlobalVarsFromStatements visitedBlock
 //@   traverse stepmark 1 stmts ir.Block visitedBlock($)
 //
